@@ -349,6 +349,15 @@ func runC18(c *Ctx) {
 
 		for _, call := range p.Calls(w, "("+pkgCompression+".Compressor).Compress") {
 			elems, lit := VarargElems(CallArgs(call)[1])
+			if !lit {
+				// `append(buf[:0], 0x0, id)`: the prefix is what is appended onto an emptied slice
+				if ap, _ := CallOf(CallArgs(call)[1]); ap != nil && p.CalleeName(ap) == "builtin.append" && len(CallArgs(ap)) == 2 {
+					if sl, ok := Fwd(CallArgs(ap)[0]).(*ssa.Slice); ok && sl.High != nil && p.Desc(sl.High) == "const:0" {
+						elems, lit = VarargElems(CallArgs(ap)[1])
+					}
+				}
+			}
+
 			okW = lit && len(elems) == 2
 			if okW {
 				d := []string{p.Desc(elems[0]), p.Desc(elems[1])}
